@@ -178,7 +178,9 @@ func runCollCase(c *Ctx, ops []string) {
 			switch p[0] {
 			case "a":
 				vars.Add(variables.NewVariable(arg, variants.VariantFromInteger(k)))
-				funcs.Add(functions.NewDelegatedFunction(arg, func(ps []*variants.Variant, o variants.IVariantOperations) (*variants.Variant, error) { return nil, nil }))
+				funcs.Add(functions.NewDelegatedFunction(arg, func(ps []*variants.Variant, o variants.IVariantOperations) (*variants.Variant, error) {
+					return nil, nil
+				}))
 				list = append(list, ent{arg, k})
 				k++
 			case "f":
@@ -194,7 +196,9 @@ func runCollCase(c *Ctx, ops []string) {
 				if find(arg) < 0 {
 					list = append(list, ent{arg, k})
 					v.SetValue(variants.VariantFromInteger(k))
-					funcs.Add(functions.NewDelegatedFunction(arg, func(ps []*variants.Variant, o variants.IVariantOperations) (*variants.Variant, error) { return nil, nil }))
+					funcs.Add(functions.NewDelegatedFunction(arg, func(ps []*variants.Variant, o variants.IVariantOperations) (*variants.Variant, error) {
+						return nil, nil
+					}))
 				}
 				k++
 			case "r":
